@@ -74,7 +74,7 @@ class _TextParser(HTMLParser):
       span.set_style(styles.StyleProperties.TextDecoration, styles.TextDecorationType(underline=True))
     elif tag.lower() == "font":
       for attr in attrs:
-        if attr[0] == "color":
+        if attr[0] == "color" and attr[1] is not None:
           color = parse_color(attr[1])
           break
       else:
